@@ -57,7 +57,7 @@ Proof.
   - vm_compute. reflexivity.
   - vm_compute. reflexivity.
   - vm_compute. reflexivity.
-  - intros [r [pw [H _]]]. vm_compute in H. discriminate.
+  - intros [r [H _]]. vm_compute in H. discriminate.
 Qed.
 
 Example f1a_trace_fixed :
@@ -89,8 +89,9 @@ Proof.
   - vm_compute. reflexivity.
   - vm_compute. reflexivity.
   - vm_compute. reflexivity.
-  - intros [r [pw [H1 [H2 H3]]]]. vm_compute in H1. injection H1 as <-.
-    vm_compute in H2. destruct H2 as [<-|[]]. vm_compute in H3. discriminate.
+  - intros [r [H1 [[pw [H2 H3]]|H4]]]; vm_compute in H1; injection H1 as <-.
+    + vm_compute in H2. destruct H2 as [<-|[]]. vm_compute in H3. discriminate.
+    + vm_compute in H4. discriminate.
 Qed.
 
 Definition weak_resp : list N := resp_of [] demo_chal.
@@ -142,7 +143,7 @@ Proof. vm_compute. repeat split. Qed.
    arbitrary types) are registered and unregistered, other clients connect, between the messages *)
 Definition good_ext : list Z := [16; 30; 77; 200]%Z.
 Example complete_fixed_nonvacuous :
-  let cf := cfgF false good_ext false in
+  let cf := cfgF false good_ext false xor_check in
   let p0 := run cf proc_init [OScreen demo_screen; OScreen open_screen; OReg 2; ORand demo_chal] in
   let tr := [OConn 1 false v38 false; OReg 3; OSend 1 [1%N] false; OUnreg 2; OConn 0 true v38 false; OReg 5] in
   acyc (p_hs p0) = true /\ ext_ok good_ext /\ nth_error (p_screens p0) 0 = Some demo_screen /\
@@ -159,7 +160,7 @@ Qed.
 
 (* ---- TightVNC security type 16 with the library's own handler registered (object 2): the client
    sends type 16, the 4-byte authentication type and (for VNC authentication) the response in one go *)
-Definition tight_cfg : cfg := cfgF true default_ext true.
+Definition tight_cfg : cfg := cfgF true default_ext true xor_check.
 Definition tight_trace (auth resp : list N) : list op :=
   [OScreen demo_screen; OReg 2; ORand demo_chal; OConn 0 false v38 false; OSend 0 ([16%N] ++ auth ++ resp) false].
 Lemma tight_negotiation :
@@ -216,6 +217,38 @@ Example password_file_changes :
   [(StNormal, [demo_pw]); (StClosed, [demo_pw2]); (StInit, [demo_pw2])].
 Proof. vm_compute. reflexivity. Qed.
 
+(* ---- a custom passwordCheck callback (harness: response = challenge xor 0x5a), the password list
+   replaced on a live screen (between challenge and response: judged against the NEW list), and a
+   failing DES backend *)
+Definition custom_screen : screen := mkScreen PwCustom 4 3 [99]%N.
+Definition xor_resp : list N := map (fun b => N.lxor b 90) demo_chal.
+Example custom_callback :
+  map (fun c => (c_st c, c_judged c))
+      (p_conns (run cfg_fixed3 proc_init
+         [OScreen custom_screen; ORand demo_chal; ORand demo_chal; OConn 0 false v33 false; OSend 0 xor_resp false;
+          OConn 0 false v33 false; OSend 1 demo_resp false]))
+  = [(StInit, Some (demo_chal, xor_resp)); (StClosed, None)].
+Proof. vm_compute. reflexivity. Qed.
+
+Example password_list_changes :
+  map (fun c => (c_st c, c_pws c))
+      (p_conns (run cfg_fixed3 proc_init
+         [OScreen demo_screen; ORand demo_chal; ORand demo_chal; ORand demo_chal;
+          OConn 0 false v33 false;                       (* holds a challenge under the list [demo_pw] *)
+          OSetList 0 [demo_pw2] 1;
+          OSend 0 demo_resp false;                       (* old password: refused *)
+          OConn 0 false v33 false; OSend 1 (resp_of demo_pw2 demo_chal) false;
+          OSetList 0 [demo_pw; demo_pw2] 0;
+          OConn 0 false v33 false; OSend 2 demo_resp false]))
+  = [(StClosed, [demo_pw2]); (StInit, [demo_pw2]); (StInit, [demo_pw; demo_pw2])].
+Proof. vm_compute. reflexivity. Qed.
+
+Example failing_backend :
+  map c_st (p_conns (run (cfgE true default_ext false xor_check) proc_init demo_trace)) = [StClosed] /\
+  map c_st (p_conns (run (cfgE true default_ext false xor_check) proc_init
+     [OScreen (mkScreen (PwFile (file_of demo_pw)) 4 3 []); ORand demo_chal; OConn 0 false v33 false; OSend 0 demo_resp false])) = [StClosed].
+Proof. vm_compute. split; reflexivity. Qed.
+
 (* ---- version lines: hypotheses of C05_versions_* are satisfiable; the sscanf mirror on canonical,
    odd-but-accepted and refused lines *)
 Definition bytes_of_string (l : list nat) : list N := map N.of_nat l.
@@ -231,7 +264,7 @@ Example versions_nonvacuous :
 Proof. vm_compute. repeat split. Qed.
 
 Example versions_failure_nonvacuous :
-  let c := mkConn 0 false StAuth 8 demo_chal demo_chal None false [] [] [] [] in
+  let c := mkConn 0 false StAuth 8 demo_chal demo_chal None false [] [] [] [] None in
   c_st c = StAuth /\ length (c_chal c) = 16%nat /\
   (forall pw, In pw (screen_passwords demo_screen) -> vnc_encrypt pw (c_chal c) <> Some demo_chal).
 Proof.
